@@ -163,9 +163,7 @@ func (r *runner) genC05(seed int64, ndb, nq, depth int, only onlySet) {
 			}
 			sc := sqlgen.Scopes{cols}
 			var p *Expr
-			// no subqueries when p also appears in the select list of a grouped query: the engine
-			// rejects that with a spurious ONLY_FULL_GROUP_BY error (known finding of C02)
-			g.NoSubq = place == "having"
+			// (subqueries under HAVING were steered around until the repair of C02-aggregate-over-subquery)
 			if g.R.Intn(2) == 0 {
 				p = g.BoolExpr(sc, depth)
 			} else {
